@@ -1,10 +1,335 @@
-// Package c15 holds the runtime monitors for property C15 (see DESIGN.md section 4).
+// Package c15 holds the runtime monitors for property C15 (see DESIGN.md
+// section 4): debugging only observes (same outcome as an undebugged run),
+// arrivals at active breakpoints suspend, and every suspended thread can be
+// resumed (no lost wake-up) – by Continue and by StopThreads.
 package c15
 
-import "verif/harness/core"
+import (
+	"fmt"
+	"os"
+	"sort"
+	"strings"
+
+	"verif/harness/core"
+	"verif/harness/sched"
+)
 
 func init() { core.Register("C15", Run) }
 
+const cfgsPerProgram = 4
+
+func genCfg(r *core.Rand, p *prog, quick bool) dcfg {
+	var d dcfg
+	switch r.Intn(6) {
+	case 0:
+		d.bpMode = "none"
+	case 1:
+		d.bpMode = "all"
+		for l := 1; l <= p.nlines; l++ {
+			d.bps = append(d.bps, l)
+		}
+	case 2, 3:
+		d.bpMode = "subset"
+	default:
+		d.bpMode = "dynamic"
+	}
+	if d.bpMode == "subset" || d.bpMode == "dynamic" {
+		den := []int{8, 4, 2}[r.Intn(3)]
+		for l := 1; l <= p.nlines; l++ {
+			if r.Chance(1, den) {
+				d.bps = append(d.bps, l)
+			} else if r.Chance(1, 12) {
+				d.disabled = append(d.disabled, l)
+			}
+		}
+		d.dynRate = r.Range(2, 10)
+	}
+	d.breakOnStart = r.Chance(1, 4)
+	d.breakOnError = !r.Chance(1, 3)
+	cmds := []string{"resume", "stepin", "stepover", "stepout"}
+	switch r.Intn(8) {
+	case 0:
+		d.script, d.scriptName = []string{"resume"}, "resume"
+	case 1:
+		d.script, d.scriptName = []string{"stepin"}, "stepin"
+	case 2:
+		d.script, d.scriptName = []string{"stepover"}, "stepover"
+	case 3:
+		d.script, d.scriptName = []string{"stepin", "stepout"}, "stepin,stepout"
+	case 4:
+		d.script, d.scriptName = []string{"stepin", "stepin", "stepout", "resume"}, "stepin,stepin,stepout,resume"
+	default:
+		n := r.Range(3, 9)
+		for i := 0; i < n; i++ {
+			d.script = append(d.script, cmds[r.Intn(4)])
+		}
+		d.scriptName = strings.Join(d.script, ",")
+	}
+	d.viaInput = r.Chance(1, 3)
+	d.timing = []int{0, 1, 1, 2}[r.Intn(4)]
+	d.dynSeed = r.U64()
+	d.maxSusp = 600
+	if !quick {
+		d.maxSusp = 1500
+	}
+	return d
+}
+
+// report adds what the monitors of one session saw to the evidence counters.
+func (s *session) report(c *core.Ctx) {
+	hs := s.m.hookSnapshot()
+	for _, h := range hs {
+		switch h.point {
+		case "dbg.beforewait", "dbg.resumed":
+			c.Event(h.point+"("+h.site+")", 1)
+		case "dbg.broadcast":
+			c.Event(h.point+"("+h.kind+")", 1)
+		}
+	}
+	for k, n := range s.cmdCount {
+		c.Event("cont."+k, int64(n))
+	}
+	// commands that acted (hook inside Continue) minus releases: commands that
+	// changed the state of a thread that was not waiting
+	if !s.stopped && len(s.stucks) == 0 {
+		nb, nr := 0, 0
+		for _, h := range hs {
+			switch {
+			case h.point == "dbg.broadcast" && h.kind == "continue":
+				nb++
+			case h.point == "dbg.resumed":
+				nr++
+			}
+		}
+		if nb > nr {
+			c.Event("cont.acted-on-running-thread", int64(nb-nr))
+		}
+	}
+	if s.contPanics > 0 {
+		c.Event("cont.panic(stepout-empty-stack,C16)", int64(s.contPanics))
+	}
+	if s.rescued > 0 {
+		c.Event("stuck.woken-by-cleanup", int64(s.rescued))
+	}
+	if s.drain {
+		c.Event("driver.drained", 1)
+	}
+	c.Event("visits", s.m.nvisits)
+}
+
+func (s *session) hookTail(n int) []string {
+	hs := s.m.hookSnapshot()
+	if len(hs) > n {
+		hs = hs[len(hs)-n:]
+	}
+	var r []string
+	for _, e := range hs {
+		r = append(r, fmt.Sprintf("%d g%d %s tid=%d line=%d %s%s", e.seq, e.g, e.point, e.tid, e.line, e.site, e.kind))
+	}
+	return r
+}
+
+// signature of the interleaving of one session: sequence of (role, point, site/kind)
+func (s *session) signature() uint64 {
+	roles := map[uint64]int{}
+	var b strings.Builder
+	for _, e := range s.m.hookSnapshot() {
+		r, ok := roles[e.g]
+		if !ok {
+			r = len(roles) + 1
+			roles[e.g] = r
+		}
+		fmt.Fprintf(&b, "%d%s%s%s;", r, e.point, e.site, e.kind)
+	}
+	return core.Hash64(b.String())
+}
+
+// dump prints generated programs and their plain outcome (debugging aid for
+// the generator: VH_C15_DUMP=<n> or sink:<n>).
+func dump(c *core.Ctx, spec string) {
+	sink := strings.HasPrefix(spec, "sink:")
+	n := 0
+	fmt.Sscanf(strings.TrimPrefix(spec, "sink:"), "%d", &n)
+	bad := 0
+	for i := 0; i < n; i++ {
+		var p *prog
+		if sink {
+			p = genSinkProgram(c.Rng("sink-src", i))
+		} else {
+			p = genProgram(c.Rng("prog-src", i))
+		}
+		o, why := runPlain(p)
+		if why != "" || o.panicked != "" {
+			bad++
+			fmt.Printf("==== %d BAD %s %s\n%s\n", i, why, o.panicked, p.src)
+			continue
+		}
+		if i < 6 || os.Getenv("VH_C15_DUMP_ALL") != "" {
+			fmt.Printf("==== %d\n%s---- res=%q err=%q\n%s\n---- scope\n%s\n", i, p.src, o.res, o.err, strings.Join(o.logs, "\n"), o.scope)
+		} else if o.err != "" {
+			fmt.Printf("==== %d err=%q\n", i, o.err)
+		}
+	}
+	fmt.Printf("%d programs, %d bad\n", n, bad)
+}
+
+// runCase is one (program, debugger configuration) pair: oracles (1), (2) and
+// the passive form of (3).
+func runCase(c *core.Ctx, slot int, stream string, idx int, p *prog, cfg dcfg, sigs chan<- uint64) {
+	c.Begin(slot, stream, idx, cfg.String()+"\n"+p.src)
+	defer c.End(slot)
+	plain, why := runPlain(p)
+	if why != "" {
+		if strings.HasPrefix(why, "parse:") {
+			// the generator must only emit valid programs
+			c.Event("generator.invalid-program", 1)
+		}
+		c.Inconclusive(why, stream, idx, p.src)
+		return
+	}
+	if plain.panicked != "" {
+		c.Event("plain.panic(not C15)", 1)
+		return
+	}
+	if p.sink {
+		// sink programs must be order independent: a second plain run is the
+		// witness (a harness problem otherwise, never a verdict)
+		again, why2 := runPlain(p)
+		if k, d := diffOutcome(plain, again); why2 != "" || k != "" {
+			c.Event("generator.nondeterministic-plain", 1)
+			c.Inconclusive("plain runs of a sink program differ", stream, idx, p.src+"\n"+why2+k+d)
+			return
+		}
+	}
+	s, err := newSession(c, p, cfg)
+	if err != nil {
+		c.Inconclusive("parse (debugged): "+err.Error(), stream, idx, p.src)
+		return
+	}
+	defer s.close()
+	detail := func(extra map[string]interface{}) map[string]interface{} {
+		d := map[string]interface{}{"program": p.src, "config": cfg.String()}
+		for k, v := range extra {
+			d[k] = v
+		}
+		return d
+	}
+	reported := map[string]bool{}
+	onStuck := func(si *stuckInfo) {
+		k := stuckKey(si)
+		c.Event("stuck."+si.site+"."+si.kind, 1)
+		if reported[k] {
+			return
+		}
+		reported[k] = true
+		c.Violation(k, stuckWhat(si),
+			stream, idx, detail(map[string]interface{}{"trace": si.trace, "goroutine": si.g}))
+	}
+	s.x.start()
+	v := s.drive([]chan struct{}{s.x.done}, onStuck)
+	s.report(c)
+	select {
+	case sigs <- s.signature():
+	default:
+	}
+	nsusp := 0
+	for _, h := range s.m.hookSnapshot() {
+		if h.point == "dbg.beforewait" {
+			nsusp++
+		}
+	}
+	switch v {
+	case "stuck":
+		c.Event("case.stuck-leaked", 1)
+		return
+	case "inconclusive":
+		c.Inconclusive("debugged run neither finished nor stuck", stream, idx,
+			detail(map[string]interface{}{"hooks": s.hookTail(30), "goroutines": trunc(sched.FullDump(), 6000)}))
+		return
+	}
+	c.Event("case.done", 1)
+	if nsusp > 0 {
+		c.NontrivialKey(stream + "|" + p.src + "|" + cfg.String())
+	}
+	// oracle (1)
+	out := s.x.collect()
+	if k, d := diffOutcome(plain, out); k != "" {
+		c.Violation(k, "debugged run differs from the plain run of the same program", stream, idx, detail(map[string]interface{}{"diff": d, "suspensions": nsusp}))
+	} else {
+		c.Event("transparency.equal", 1)
+	}
+	// oracle (2)
+	br := s.checkBreakpoints()
+	c.Event("bp.must-suspend", int64(br.must))
+	c.Event("bp.must-suspend.matched", int64(br.matched))
+	c.Event("bp.ambiguous(concurrent change)", int64(br.ambiguous))
+	if br.wrongLine > 0 {
+		c.Violation("bp:suspended-at-other-line", "a suspension inside the visit of a breakpoint line reports another line", stream, idx, detail(nil))
+	}
+	seen := map[string]bool{}
+	for _, m := range br.misses {
+		k := bpMissKey(m)
+		c.Event(k, 1)
+		if m.inFlight {
+			// a command addressed to the thread raced with the visit (only
+			// possible while the thread is reported suspended although it
+			// runs): which command was in effect is not observable, no verdict
+			continue
+		}
+		if seen[k] {
+			continue
+		}
+		seen[k] = true
+		c.Violation(k, fmt.Sprintf("thread %d arrived at line %d (from a different line) while a breakpoint was active there and did not suspend; last command to the thread: %s", m.a.tid, m.a.line, m.lastCmd),
+			stream, idx, detail(map[string]interface{}{"line": m.a.line, "tid": m.a.tid, "visit_interval": []int64{m.a.v0, m.a.v1}, "trace": m.context}))
+	}
+	if idx%97 == 3 {
+		c.Sample(stream, map[string]interface{}{"program": p.src, "config": cfg.String(), "suspensions": nsusp,
+			"continues": s.nconts, "must_suspend": br.must, "log_lines": len(out.logs)})
+	}
+}
+
 // Run is the check.
 func Run(c *core.Ctx) {
+	c.Note("rule", "cases: (a) 'prog': seeded single-threaded ECAL programs (assignments, arithmetic, if/elif/else, range / guard / list / map loops with break/continue, functions with defaults, nested and recursive calls, try/except/otherwise/finally with raise and runtime errors, log, lists, maps; one statement per line) x 4 debugger configurations each: breakpoints {none, every line, random subsets incl. disabled ones, set/disable/remove/remove-all while running} x breakonstart x break-on-error {default, off} x command script over {resume, stepin, stepover, stepout} per suspended thread x command route {Continue(), HandleInput} x driver timing {immediate, settled, seeded delay} with seeded noise at the dbg.* hook points; (b) 'sink': programs with 2-3 sinks on 2-4 workers (events fired with addEvent / addEventAndWait, optional cascade; per-event output order independent, compared as sorted log) under the same configurations; (c) 'gate': a fixed matrix of directed gates dbg.beforewait -> dbg.broadcast over wait site {breakpoint, step, error} x position {top level, in call, nested call, loop, sink worker} x releasing command {resume, stepin, stepover, stepout, StopThreads} plus StopThreads with several threads. stepout is only issued inside a call (top level: C16). A case is non-trivial if the debugged run suspended at least once (a, b) or the gate held the thread and was opened by the partner's broadcast (c); distinct = distinct (program, configuration) pairs / scenarios")
+	if n := os.Getenv("VH_C15_DUMP"); n != "" {
+		dump(c, n)
+		return
+	}
+	h := getHub()
+	quick := c.Quick()
+
+	// ---- (c) directed gates: sequential inside a process
+	scns := gateScenarios()
+	reps := c.Pick(1, 3)
+	c.Parallel(1, "gate", len(scns)*reps, func(slot, idx int) {
+		runGate(c, slot, "gate", idx, scns[idx%len(scns)])
+	})
+
+	// ---- (a), (b): seeded noise at the hook points from here on
+	h.tr.SetNoise(c.Seed*7919+uint64(c.Batch), 40)
+	sigs := make(chan uint64, 1<<16)
+	par := 3
+	if v := os.Getenv("VH_C15_PAR"); v != "" {
+		fmt.Sscanf(v, "%d", &par)
+	}
+	nprog := c.Pick(1800, 90000)
+	c.Parallel(par, "prog", nprog, func(slot, idx int) {
+		p := genProgram(c.Rng("prog-src", idx/cfgsPerProgram))
+		cfg := genCfg(c.Rng("prog", idx), p, quick)
+		runCase(c, slot, "prog", idx, p, cfg, sigs)
+	})
+	nsink := c.Pick(400, 12000)
+	c.Parallel(par, "sink", nsink, func(slot, idx int) {
+		p := genSinkProgram(c.Rng("sink-src", idx/cfgsPerProgram))
+		cfg := genCfg(c.Rng("sink", idx), p, quick)
+		runCase(c, slot, "sink", idx, p, cfg, sigs)
+	})
+	close(sigs)
+	set := map[uint64]struct{}{}
+	for s := range sigs {
+		set[s] = struct{}{}
+	}
+	c.Event("interleaving-signatures.distinct(sum over batches)", int64(len(set)))
+	_ = sort.Ints
 }
